@@ -92,6 +92,72 @@ def _prologue_slice(body):
     raise ValueError("option handling of _analysis not found")
 
 
+def _param_filter_slice(body):
+    """_analysis: the block that copies the supplied parameters a solver refers to into its dictionary"""
+    out = [st for st in body if ast.unparse(st).startswith("if 'parameters' in indict.keys():") and "solver_json['parameters'] = {}" in ast.unparse(st)]
+    if len(out) != 1:
+        raise ValueError("parameter filter of _analysis not found")
+    return out
+
+
+def _scatter_slice(body):
+    """_generate_propagator_matrix: `P = sympy.zeros(*A.shape)` and the loop over the connected components"""
+    out = [st for st in body if ast.unparse(st) == "P = sympy.zeros(*A.shape)" or (isinstance(st, ast.For) and "get_connected_component_indices" in ast.unparse(st.iter))]
+    if len(out) != 2:
+        raise ValueError("scatter loop of _generate_propagator_matrix not found")
+    return out
+
+
+def _from_ode_slice(body):
+    """from_ode: from `local_symbols_idx = ...` (the split is the callee) up to the re-attachment of the foreign terms"""
+    out, on = [], False
+    for st in body:
+        u = ast.unparse(st)
+        if u.startswith("local_symbols_idx ="):
+            on = True
+        if on:
+            out.append(st)
+        if u.startswith("if nonlocal_derivative_terms:"):
+            return out
+    raise ValueError("re-attachment block of from_ode not found")
+
+
+def _from_shapes_slice(body):
+    """from_shapes: `A`, `b`, `c` zero, the second `i = 0` and the loop that fills the rows"""
+    out = []
+    seen_i0 = 0
+    for st in body:
+        u = ast.unparse(st)
+        if u in ("A = sympy.zeros(N, N)", "b = sympy.zeros(N, 1)", "c = sympy.zeros(N, 1)"):
+            out.append(st)
+        elif u == "i = 0":
+            seen_i0 += 1
+            if seen_i0 == 2:
+                out.append(st)
+        elif isinstance(st, ast.For) and seen_i0 == 2:
+            out.append(st)
+    if len(out) != 5:
+        raise ValueError("row-filling loop of from_shapes not found")
+    return out
+
+
+_HIGHEST = "highest_diff_sym_idx = [k for k, el in enumerate(x) if el == sympy.Symbol(str(shape.symbol) + Config().differential_order_symbol * (shape.order - 1))][0]"
+
+
+def _partition_slice(body):
+    """_analysis: from `solvers_json = []` to the end of the block that generates the numeric solver"""
+    out, on = [], False
+    for st in body:
+        u = ast.unparse(st)
+        if u == "solvers_json = []":
+            on = True
+        if on:
+            out.append(st)
+        if u.startswith("if len(analytic_syms) < len(shape_sys.x_):"):
+            return out
+    raise ValueError("solver partition of _analysis not found")
+
+
 GROUPS = {
     # ---------------------------------------------------------------------------------- C15
     "PySpikes": {
@@ -306,6 +372,174 @@ GROUPS = {
                 doc="the three stages in order (an exception inside them is re-raised as SingularityDetectionException: outside the model)")),
         ],
     },
+    # ---------------------------------------------------------------------------------- C03 / C14
+    "PyPartition": {
+        "imports": ["OdeVerif.Model.PyPrelude"],
+        "file": "odetoolbox/__init__.py",
+        "functions": [
+            (("_analysis",), Spec(
+                name="solverPartition", header="",
+                params=[("n", "Nat"), ("node_is_analytically_solvable", "Nat → Bool"), ("disable_analytic_solver", "Bool"),
+                        ("disable_stiffness_check", "Bool"), ("solver_type", "Option String")],
+                types={"requests": "List (List Nat)", "analytic_syms": "List Nat", "numeric_syms": "List Nat", "names": "List String", "name": "String"},
+                predeclare=[("requests", "[]"), ("names", "[]"), ("name", "\"\"")],
+                expr_map={"node_is_analytically_solvable.items()": "(Py.items n node_is_analytically_solvable)",
+                          "_node_is_analytically_solvable": "(_node_is_analytically_solvable = true)",
+                          "analytic_syms": "(analytic_syms ≠ [])", "len(analytic_syms) < len(shape_sys.x_)": "(analytic_syms.length < n)",
+                          "list(set(shape_sys.x_) - set(analytic_syms))": "((List.range n).filter (fun i => decide (¬ i ∈ analytic_syms)))",
+                          "not disable_stiffness_check": "(disable_stiffness_check = false)", "not solver_type is None": "(solver_type.isSome = true)"},
+                stmt_map={"solvers_json = []": [], "analytic_solver_json = None": [],
+                          "sub_sys = shape_sys.get_sub_system(analytic_syms)": [("requests", "(requests ++ [analytic_syms])")],
+                          "analytic_solver_json = sub_sys.generate_propagator_solver()": [],
+                          "analytic_solver_json['solver'] = 'analytical'": [("names", "(names ++ [\"analytical\"])")],
+                          "solvers_json.append(analytic_solver_json)": [],
+                          "sub_sys = shape_sys.get_sub_system(numeric_syms)": [("requests", "(requests ++ [numeric_syms])")],
+                          "solver_json = sub_sys.generate_numeric_solver(state_variables=shape_sys.x_)": [],
+                          "solver_json['solver'] = 'numeric'": [("name", "\"numeric\"")],
+                          "solver_type = tester.check_stiffness()": [],
+                          "solver_json['solver'] += '-' + solver_type": [("name", "(name ++ \"-\" ++ solver_type.getD \"\")")],
+                          "solvers_json.append(solver_json)": [("names", "(names ++ [name])")],
+                          "if analytic_syms:\n    pass": []},
+                skip_prefixes=["if not PYGSL_AVAILABLE:", "kwargs = {}", "if 'options' in indict.keys() and 'random_seed' in indict['options'].keys():",
+                               "if 'parameters' in indict.keys():\n    kwargs", "if 'stimuli' in indict.keys():\n    kwargs",
+                               "for key in ['sim_time', 'max_step_size', 'integration_accuracy_abs', 'integration_accuracy_rel']:",
+                               "if not analytic_solver_json is None:\n    kwargs", "tester = StiffnessTester(sub_sys, shapes, **kwargs)"],
+                drop_calls=["logging.info"], body_filter=_partition_slice, end_return="(requests, names)", result_type="(List (List Nat) × List String)",
+                doc="which sub-systems `_analysis` asks `get_sub_system` for (in order) and the `solver` names of the dictionaries it appends. State "
+                    "variables are positions of `x`; the verdict dictionary is a function on them; `list(set(x) - set(analytic_syms))` is listed in the "
+                    "order of `x` (its order is irrelevant: `get_sub_system` re-selects by position); `tester.check_stiffness()` is the parameter "
+                    "`solver_type`; the construction of the tester's keyword arguments is dropped (prefix-pinned)")),
+        ],
+    },
+    # ---------------------------------------------------------------------------------- C08
+    "PyParams": {
+        "imports": ["OdeVerif.Model.PyPrelude", "OdeVerif.Model.SolverDict"],
+        "file": "odetoolbox/__init__.py",
+        "functions": [
+            (("_analysis",), Spec(
+                name="parameterFilter", header="",
+                params=[("hasParameters", "Bool"), ("params", "List (String × String)"), ("solvers_json", "List SolverDict.SolverView")],
+                types={"listed": "List (List String)", "symbol_appears_in_any_expr": "Bool", "solver_json": "SolverDict.SolverView",
+                       "param_name": "String", "param_expr": "String", "sym": "String", "expr": "List String",
+                       "for:solvers_json": "SolverDict.SolverView", "for:indict['parameters'].items()": "(String × String)",
+                       "for:solver_json['update_expressions'].items()": "(String × List String)",
+                       "for:solver_json['propagators'].items()": "(String × List String)",
+                       "for:solver_json['initial_values'].items()": "(String × List String)"},
+                predeclare=[("listed", "[]")],
+                expr_map={"'parameters' in indict.keys()": "(hasParameters = true)", "indict['parameters'].items()": "params",
+                          "'update_expressions' in solver_json.keys()": "(solver_json.hasUpdate = true)",
+                          "'propagators' in solver_json.keys()": "(solver_json.hasProp = true)",
+                          "'initial_values' in solver_json.keys()": "(solver_json.hasIv = true)",
+                          "solver_json['update_expressions'].items()": "solver_json.update",
+                          "solver_json['propagators'].items()": "solver_json.prop",
+                          "solver_json['initial_values'].items()": "solver_json.iv",
+                          "param_name in [str(sym) for sym in list(expr.atoms())]": "(param_name ∈ expr)",
+                          "param_name in [str(sym) for sym in list(sympy.parsing.sympy_parser.parse_expr(expr, global_dict=Shape._sympy_globals).atoms())]": "(param_name ∈ expr)"},
+                stmt_map={"solver_json['parameters'] = {}": [("listed", "(listed ++ [[]])")],
+                          "solver_json['parameters'][param_name] = str(sympy.parsing.sympy_parser.parse_expr(param_expr, global_dict=Shape._sympy_globals).n())":
+                              [("listed", "(SolverDict.appendLast listed param_name)")]},
+                body_filter=_param_filter_slice, end_return="listed", result_type="List (List String)",
+                doc="the parameter filter only. A solver dictionary is seen through `SolverDict.SolverView` (which keys are present; per entry the "
+                    "names of the atoms of its expression, as `expr.atoms()` / the re-parsed initial value give them); the result is, per solver in "
+                    "order, the names of the supplied parameters written into its `parameters` entry (their values are `parse_expr(...).n()`: contract)")),
+        ],
+    },
+    # ---------------------------------------------------------------------------------- C14
+    "PyStiffness": {
+        "imports": ["OdeVerif.Model.PyPrelude", "OdeVerif.Generated.DrawDecision"],
+        "file": "odetoolbox/stiffness.py",
+        "functions": [
+            (("StiffnessTester", "check_stiffness"), Spec(
+                name="checkStiffness", header="{α : Type} [Mul α] [LT α] [DecidableLT α] [OfNat α 10] [OfNat α 6]",
+                params=[("eps", "α"), ("bench", "Bool → Except Unit (α × α)")],
+                types={"step_min_exp": "α", "step_average_exp": "α", "step_min_imp": "α", "step_average_imp": "α"},
+                expr_map={"None": "none",
+                          "self._draw_decision(step_min_imp, step_min_exp, step_average_imp, step_average_exp)":
+                              "(some (drawDecision eps step_min_imp step_min_exp step_average_imp step_average_exp 10 6))"},
+                bind_map={"step_min_exp, step_average_exp, runtime_exp = self._evaluate_integrator(odeiv.step_rk4, raise_errors=raise_errors)":
+                          ("(step_min_exp, step_average_exp)", "bench false"),
+                          "step_min_imp, step_average_imp, runtime_imp = self._evaluate_integrator(odeiv.step_bsimp, raise_errors=raise_errors)":
+                          ("(step_min_imp, step_average_imp)", "bench true")},
+                drop_calls=["logging.warning"], asserts="drop", try_handlers=True,
+                raise_map={"__no_raise_in_this_function__": "()"}, error_type="Unit", result_type="Option String",
+                doc="`self._evaluate_integrator(stepper, ...)` is the abstract benchmark `bench implicit?` (`false` = `odeiv.step_rk4`, `true` = "
+                    "`odeiv.step_bsimp`) returning (minimum step, average step) or failing with ParametersIncompleteException; the default ratios 10 "
+                    "and 6 of `_draw_decision` are passed explicitly (they are re-read from the source into `drawDecisionDefaults`)")),
+        ],
+    },
+    "PyFromOde": {
+        "imports": ["OdeVerif.Model.PyPrelude", "OdeVerif.Model.Shapes"],
+        "file": "odetoolbox/shapes.py",
+        "functions": [
+            (("Shape", "from_ode"), Spec(
+                name="fromOdeReattach", header="{K : Type} [Add K] [Mul K] [OfNat K 0]",
+                params=[("derivative_factors", "List K"), ("x", "List K"), ("localIdx", "List Nat"), ("inhom_term", "K"), ("nonlin_term", "K")],
+                types={"local_symbols_idx": "List Nat", "local_derivative_factors": "List K", "nonlocal_derivative_terms": "List K", "i": "Nat"},
+                expr_map={"[all_variable_symbols.index(sym) for sym in local_symbols]": "localIdx",
+                          "range(len(all_variable_symbols))": "(List.range x.length)",
+                          "functools.reduce(lambda x, y: x + y, nonlocal_derivative_terms)": "(Shapes.sumList nonlocal_derivative_terms)",
+                          "nonlocal_derivative_terms": "nonlocal_derivative_terms"},
+                index_map={"derivative_factors": "derivative_factors.getD {k} 0", "all_variable_symbols_sympy": "x.getD {k} 0"},
+                stmt_map={"if nonlocal_derivative_terms:\n    nonlin_term = nonlin_term + functools.reduce(lambda x, y: x + y, nonlocal_derivative_terms)":
+                          [("nonlin_term", "(if nonlocal_derivative_terms ≠ [] then nonlin_term + (Shapes.sumList nonlocal_derivative_terms) else nonlin_term)")]},
+                body_filter=_from_ode_slice, end_return="(local_derivative_factors, inhom_term, nonlin_term)", result_type="(List K × K × K)",
+                doc="what `from_ode` does with the result of the split: keep the factors of the shape's own symbols (positions `localIdx` = "
+                    "`[all_variable_symbols.index(sym) for sym in local_symbols]`), re-attach `factor * symbol` of every other position to the nonlinear "
+                    "part. Values in a structure `K`; `functools.reduce(+)` of a non-empty list is `Shapes.sumList` (0 + the sum)")),
+        ],
+    },
+    "PyFromShapes": {
+        "imports": ["OdeVerif.Model.PyPrelude", "OdeVerif.Model.Shapes"],
+        "file": "odetoolbox/system_of_shapes.py",
+        "functions": [
+            (("SystemOfShapes", "from_shapes"), Spec(
+                name="fromShapesRows", header="{K : Type} [OfNat K 0] [OfNat K 1] [Inhabited K]",
+                params=[("shapes", "List (Shapes.ShapeRow K)")],
+                types={"A": "Nat → Nat → K", "b": "Nat → K", "c": "Nat → K", "i": "Nat", "highest_diff_sym_idx": "Nat", "order": "Nat",
+                       "shape": "Shapes.ShapeRow K", "for:shapes": "Shapes.ShapeRow K", "for:range(shape.order - 1)": "Nat"},
+                expr_map={"sympy.zeros(N, N)": "(fun _ _ => 0)", "sympy.zeros(N, 1)": "(fun _ => 0)", "range(shape.order - 1)": "(List.range (shape.order - 1))",
+                          "shape.order": "shape.order"},
+                literals={"1.0": "1"},
+                index_set={"A": ("A", "(Py.update2 {old} {k}.1 {k}.2 {v})"), "b": ("b", "(Py.update {old} {k} {v})"), "c": ("c", "(Py.update {old} {k} {v})")},
+                stmt_map={_HIGHEST: [("highest_diff_sym_idx", "(i + shape.order - 1)")],
+                          "shape_expr = shape.reconstitute_expr()": [],
+                          "lin_factors, inhom_term, nonlin_term = Shape.split_lin_inhom_nonlin(shape_expr, x, parameters=parameters)": [],
+                          "A[highest_diff_sym_idx, :] = lin_factors.T": [("A", "(Py.setRow A highest_diff_sym_idx shape.lin)")],
+                          "b[highest_diff_sym_idx] = inhom_term": [("b", "(Py.update b highest_diff_sym_idx shape.inhom)")],
+                          "c[highest_diff_sym_idx] = nonlin_term": [("c", "(Py.update c highest_diff_sym_idx shape.nonlin)")]},
+                body_filter=_from_shapes_slice, end_return="(A, b, c)", result_type="((Nat → Nat → K) × (Nat → K) × (Nat → K))",
+                doc="the loop that fills `A`, `b`, `c`. A shape is seen as its order and the three results of splitting its reconstituted expression "
+                    "against the global `x` (`Shapes.ShapeRow`); `x` lists the shapes' state variables shape by shape in derivative order (the first "
+                    "loop of the function), so the position of a shape's highest derivative - found in the source by searching `x` for its name - is "
+                    "`i + shape.order - 1` (names are distinct); matrices are functions of indices, initially zero")),
+        ],
+    },
+    "PySubSystem": {
+        "imports": ["OdeVerif.Model.PyPrelude", "OdeVerif.Model.Shapes"],
+        "file": "odetoolbox/system_of_shapes.py",
+        "functions": [
+            (("SystemOfShapes", "get_sub_system"), Spec(
+                name="subSystem", header="{K : Type} [Add K] [Mul K] [OfNat K 0]",
+                params=[("n", "Nat"), ("keep", "Nat → Bool"), ("A", "Nat → Nat → K"), ("b", "Nat → K"), ("c", "Nat → K"), ("x", "Nat → K")],
+                rename={"_idx": "row"},
+                types={"idx": "List Nat", "idx_compl": "List Nat", "c_old": "Nat → K", "row": "Nat", "i": "Nat", "sym": "Nat",
+                       "A_sub": "List (List K)", "b_sub": "List K", "c_sub": "List K", "for:idx": "Nat"},
+                expr_map={"enumerate(self.x_)": "(Py.enumerateRange n)", "sym in symbols": "(keep sym = true)", "not sym in symbols": "(keep sym = false)",
+                          "self.A_[idx, :][:, idx]": "(idx.map (fun r => idx.map (fun col => A r col)))", "self.b_[idx, :]": "(idx.map b)",
+                          "self.c_.copy()": "c", "c_old[idx, :]": "(idx.map c_old)",
+                          "self.A_[_idx, idx_compl].dot(self.x_[idx_compl, :])": "(Shapes.sumList (idx_compl.map (fun j => A row j * x j)))",
+                          "(A_sub, b_sub, c_sub)": "(idx, A_sub, b_sub, c_sub)"},
+                index_map={"c_old": "c_old {k}"},
+                index_set={"c_old": ("c_old", "(Py.update {old} {k} {v})")},
+                stmt_map={"x_sub = self.x_[idx, :]": [], "c_old[_idx] = _custom_simplify_expr(c_old[_idx])": [],
+                          "shapes_sub = [shape for shape in self.shapes_ if shape.symbol in symbols]": [],
+                          "return SystemOfShapes(x_sub, A_sub, b_sub, c_sub, shapes_sub)": []},
+                end_return="(idx, A_sub, b_sub, c_sub)", result_type="(List Nat × List (List K) × List K × List K)",
+                doc="state variables are positions of `x` (`sym in symbols` is `keep sym`); matrices and vectors are functions of indices with values in "
+                    "`K`; NumPy/SymPy slicing `M[idx, :][:, idx]`, `v[idx, :]` and the row-times-column product are spelled out; "
+                    "`_custom_simplify_expr` is a denotation-preserving contract (dropped)")),
+        ],
+    },
     # ---------------------------------------------------------------------------------- C10
     "PyJacobian": {
         "imports": ["OdeVerif.Model.PyPrelude", "OdeVerif.Model.Shapes"],
@@ -361,6 +595,27 @@ GROUPS = {
                 doc="the control flow of the order search; every SymPy step is an oracle answer (`o.nonzeroAt t`, `o.order1Verifies`, "
                     "`o.invertibleAt order t`, `o.verifies order`), the statements that only compute SymPy objects are dropped verbatim (an edit of any of "
                     "them makes the translation fail); the value returned is the order of the shape that is constructed")),
+        ],
+    },
+    # ---------------------------------------------------------------------------------- C01 / C06
+    "PyScatter": {
+        "imports": ["OdeVerif.Model.PyPrelude"],
+        "file": "odetoolbox/system_of_shapes.py",
+        "functions": [
+            (("SystemOfShapes", "_generate_propagator_matrix"), Spec(
+                name="scatterBlocks", header="{K : Type} [OfNat K 0]",
+                params=[("components", "List (List Nat)"), ("E", "List Nat → Nat → Nat → K")],
+                types={"P": "Nat → Nat → K", "idx": "List Nat", "i": "Nat", "j": "Nat", "i_block": "Nat", "j_block": "Nat",
+                       "for:get_connected_component_indices(A_np)": "List Nat", "for:enumerate(idx)": "(Nat × Nat)"},
+                expr_map={"sympy.zeros(*A.shape)": "(fun _ _ => 0)", "get_connected_component_indices(A_np)": "components",
+                          "enumerate(idx)": "(Py.enumerate idx)", "P_block[i_block, j_block]": "(E idx i_block j_block)"},
+                index_set={"P": ("P", "(Py.update2 {old} {k}.1 {k}.2 {v})")},
+                stmt_map={"block = sympy.Matrix(A_np[np.ix_(idx, idx)])": [],
+                          "P_block = sympy.simplify(sympy.exp(block * sympy.Symbol(Config().output_timestep_symbol)))": []},
+                body_filter=_scatter_slice, end_return="P", result_type="Nat → Nat → K",
+                doc="the scatter loop only. `get_connected_component_indices(A)` is the list `components` of index lists (SciPy contract, compared with "
+                    "the model's own components on every case); `E idx a b` is entry (a, b) - block-local indices - of "
+                    "`simplify(exp(A[idx, idx] * h))` (SymPy contract); `P` is a function of two indices, initially zero")),
         ],
     },
     # ---------------------------------------------------------------------------------- C13
